@@ -366,6 +366,9 @@ def run(ctx) -> None:
     r2_num_out(ctx, nf)
     r3_port_kinds(ctx, nf)
     r4_call(ctx, nf)
+    ctx.rule("C06.R5", "a reloaded op carries the fields its signature is computed from: S.deserialize ∘ X._to_serial is the identity on every init-field of every op class (shared with C02.R1)", floor=30)
+    from .c02 import r1_forward_codec
+    r1_forward_codec(ctx, nf, rule="C06.R5", modules=("hugr.ops",))
     from .. import lints
     lints.arm(ctx)
 
